@@ -395,7 +395,7 @@ fn c11_4_short_buffers() {
     }
 }
 
-// @verif id=C10.1b props=C10,C11,C04 tier=quick
+// @verif id=C10.1b props=C11,C04,C10 tier=quick
 // @functions SelectiveAck::deserialize, SelectiveAck::as_bytes, SelectiveAck::len, SelectiveAck::iter
 // @bounds every SACK extension payload of length 0..=24 bytes (any content)
 // @asserts no panic for any length (incl. 0, 1, non-multiples of 4, > 8); keeps the first min(len, 8) bytes zero-padded; bit length = 8 * payload length; as_bytes is always 8 bytes
